@@ -6,7 +6,9 @@ import (
 	"fmt"
 	"go/token"
 	"go/types"
+	"os"
 	"sort"
+	"strconv"
 	"strings"
 
 	"golang.org/x/tools/go/ssa"
@@ -102,7 +104,54 @@ func (x *Exec) bumpCounters(fr *Frame, st *State, key string, args []Value, argT
 	}
 	if x.contract != nil && len(x.inlineStack) == 0 {
 		for _, ac := range x.contract.AtCalls {
-			if matchCallee(ac.Callee, key) {
+			callee, site := ac.Callee, 0
+			if i := strings.LastIndex(callee, "#"); i > 0 {
+				// "<callee>#n": only the n-th call site (in source order) of that callee
+				if n, err := strconv.Atoi(callee[i+1:]); err == nil {
+					callee, site = callee[:i], n
+				}
+			}
+			if matchCallee(callee, key) {
+				if site > 0 {
+					if x.siteNo == nil {
+						x.siteNo = map[string]map[token.Pos]int{}
+					}
+					m := x.siteNo[callee]
+					if m == nil {
+						m = map[token.Pos]int{}
+						x.siteNo[callee] = m
+						// number the call sites of this callee by source position
+						var ps []token.Pos
+						for _, b := range fr.fn.Blocks {
+							for _, in := range b.Instrs {
+								if ci, ok := in.(ssa.CallInstruction); ok {
+									k := ""
+									if sc := ci.Common().StaticCallee(); sc != nil {
+										k = fnKey(sc, x.eng.home)
+									} else if ci.Common().IsInvoke() {
+										k = x.eng.ifaceKey(ci.Common().Value.Type(), ci.Common().Method.Name())
+									}
+									if matchCallee(callee, k) {
+										ps = append(ps, ci.Pos())
+									}
+								}
+							}
+						}
+						sort.Slice(ps, func(i, j int) bool { return ps[i] < ps[j] })
+						for i, p := range ps {
+							m[p] = i + 1
+						}
+					}
+					if os.Getenv("GOVC_DEBUG") != "" {
+						fmt.Fprintln(os.Stderr, "site-debug", callee, site, pos, m)
+					}
+					if m[pos] != site {
+						if m[pos] != 0 {
+							x.matched[ac.Callee] = x.matched[ac.Callee] || false
+						}
+						continue
+					}
+				}
 				x.matched[ac.Callee] = true
 				var tvs []TV
 				for i, a := range args {
